@@ -1,9 +1,9 @@
 SPECIFICATION Spec
 CONSTANTS
-  SpinSync = TRUE
-  ObliqOn = FALSE
+  SpinSync = FALSE
+  ObliqOn = TRUE
   NVals = 2
-  Bug = "none"
+  Bug = "no_collapse_on_strength"
 INVARIANT C13_Fresh_Layered
 INVARIANT SyncHolds
 CHECK_DEADLOCK FALSE
